@@ -203,6 +203,32 @@ def execute(script, failing, moves, anchor_seed=None):
             elif e['e'] == 'close_returned':
                 events.append({'e': 'close', 'o': ''})
         result['events'] = events
+        # implementation-level log: the boundary events that correspond to the blocks of the PlusCal specification
+        impl = []
+        for e in log:
+            if e['e'] == 'acquire' and e['by'] in script:
+                impl.append({'e': 'acquire', 'by': e['by'], 'o': '', 'n': 0, 'flag': False, 'ok': False})
+            elif e['e'] == 'acquire' and e['by'] == 'fl':
+                impl.append({'e': 'acquire', 'by': 'fl', 'o': '', 'n': int(e.get('n', -1)), 'flag': False, 'ok': False})
+            elif e['e'] == 'is_set' and e['by'] == 'fl':
+                impl.append({'e': 'is_set', 'by': 'fl', 'o': '', 'n': 0, 'flag': bool(e['value']), 'ok': False})
+            elif e['e'] == 'storage':
+                impl.append({'e': 'storage', 'by': 'fl', 'o': e['o'], 'n': 0, 'flag': False, 'ok': bool(e['ok'])})
+            elif e['e'] == 'wait' and e['by'] == 'fl':
+                impl.append({'e': 'wait', 'by': 'fl', 'o': '', 'n': 0, 'flag': False, 'ok': bool(e['ok'])})
+            elif e['e'] == 'set' and e['by'] == 'cl':
+                impl.append({'e': 'set', 'by': 'cl', 'o': '', 'n': 0, 'flag': False, 'ok': False})
+            elif e['e'] == 'joined' and e['by'] == 'cl':
+                impl.append({'e': 'joined', 'by': 'cl', 'o': '', 'n': 0, 'flag': False, 'ok': False})
+            elif e['e'] == 'storage_close':
+                impl.append({'e': 'storage_close', 'by': 'cl', 'o': '', 'n': 0, 'flag': False, 'ok': False})
+        nxt2 = dict((p, 0) for p in script)
+        for e in impl:
+            if e['e'] == 'acquire' and e['by'] in script:
+                p = e['by']
+                e['o'] = script[p][nxt2[p]] if nxt2[p] < len(script[p]) else 'extra'
+                nxt2[p] += 1
+        result['implog'] = impl
         requested = [e['o'] for e in events if e['e'] == 'req']
         applied = [e['o'] for e in events if e['e'] == 'app']
         expected = [o for o in requested if o not in failing]
@@ -287,6 +313,7 @@ def run(rep, tier, seed):
         for f in fails:
             configs.append((w, script, f))
     all_traces = []
+    impl_logs = []
     with tlc.Scratch() as s:
         mc.write_mc(s, 'AsyncCassette', 'MC_C12_variant', tla_consts(WORKLOADS['w2'], [], 1, variant=True), invariants=INVS, spec='Spec')
         r = tlc.run_tlc(s, 'MC_C12_variant', 'MC_C12_variant.cfg')
@@ -340,11 +367,32 @@ def run(rep, tier, seed):
                             rep.sample({'workload': w, 'failing': failing, 'movers': mv, 'events': res.get('events')})
                         all_traces.append({'id': len(all_traces) + 1, 'events': res.get('events') or [], 'w': w, 'failing': failing,
                                            'moves': mv})
+                        if res.get('anchor_seed') is None and not res['violations']:
+                            impl_logs.append({'id': len(impl_logs) + 1, 'events': res.get('implog') or []})
                         if res['violations']:
                             rep.violation({'summary': '%s (workload %s, failing %s)' % (res['violations'][0][:300], w, failing),
                                            'signature': None, 'all': res['violations'][:4]},
                                           replay={'kind': 'schedule', 'workload': w, 'failing': failing, 'moves': mv, 'anchor_seed': res.get('anchor_seed')})
             _G[name] = None
+            # implementation level: the scheduler's log of the plain (not line-anchored) runs must be a behaviour of the
+            # PlusCal specification itself (AsyncImplTrace reuses its actions); a rejection is model drift, not an alarm
+            impl = [t for t in impl_logs if t['events']][:400]
+            del impl_logs[:]
+            if impl:
+                tname = 'MC_C12_impl_%d' % idx
+                mc.write_mc(s, 'AsyncImplTrace', tname, tla_consts(script, failing, 60), invariants=['TraceInv'],
+                            spec='TraceSpec', constraints=['Report'])
+                r2, acc2, rej2 = tracecheck.validate(s, tname, tname + '.cfg', impl)
+                rep.add_tlc('AsyncImplTrace (%s failing=%s): %d scheduler logs against the PlusCal actions' % (w, failing, len(impl)), r2)
+                rep.accepted += len(acc2)
+                st = rep.extra.setdefault('implementation_level_traces', {'validated': 0, 'accepted': 0, 'rejected_as_drift': 0})
+                st['validated'] += len(impl)
+                st['accepted'] += len(acc2)
+                st['rejected_as_drift'] += len(rej2)
+                if rej2 and 'rejected_sample' not in st:
+                    k = tracecheck.longest_prefix(s, tname, tname + '.cfg', rej2[0])
+                    st['rejected_sample'] = {'workload': w, 'failing': failing, 'matched_prefix': k,
+                                             'next_event': rej2[0]['events'][k] if k < len(rej2[0]['events']) else None}
         # direction B: every boundary-event log is validated by TLC against the observable-level trace spec
         if all_traces:
             for i in range(0, len(all_traces), 4000):
